@@ -1,5 +1,6 @@
 import Utv.Lemmas.C04
 import Utv.Lemmas.C04Ts
+import Utv.Model.C04Iter
 /-!
 C04 — invalid input raises ParseError and nothing else; parsing always terminates.
 
@@ -1100,6 +1101,51 @@ theorem C04_legacy_nonstring_keys_witness :
     (initDataclass wData { nonStrKeys := true } {} none none {} (pure ()) 5 false {}).1.escapes = true
     ∧ (initDataclass wData Legacy.none {} none none {} (pure ()) 5 false {}).1.escapes = false := by
   decide
+
+/-! ## when the conversion glue walks through its input (Model/C04Iter.lean) -/
+
+section Iteration
+open Iter
+
+/-- **a scalar target never consumes an input that `multi()` does not accept**: a lazy iterator / generator, an
+object with only `__iter__` or only `__getitem__` is never walked through when an int, float, str, bytes, Decimal,
+complex, bool, datetime, date, time, timedelta or UUID is asked for — so an endless one cannot make it hang -/
+theorem C04_scalar_never_consumes_unsized (f : Flags) (hf : f.legacyDatetime = false) (s : Scalar) (k : InKind)
+    (hk : isMulti k = false) : consumes f (.scalar s) k = false := by
+  cases k <;> simp [isMulti] at hk <;> cases s <;> simp [consumes, attemptFrom, hf]
+
+/-- **an array target consumes only what `multi()` accepts** (sized builtin containers): any other iterable is
+wrapped as a single item, never walked through -/
+theorem C04_array_consumes_only_multi (f : Flags) (same : Bool) (k : InKind)
+    (h : consumes f (.array same) k = true) : isMulti k = true := by
+  simp [consumes] at h
+  exact h.2
+
+/-- the only targets that read a lazy / `__iter__`-only / `__getitem__`-only input to its end are the mapping-like
+ones (dict: "an iterable of key, value pairs"; a data class through `to_dict`), and never under no_explicit_cast -/
+theorem C04_unsized_consumed_only_by_mapping_targets (f : Flags) (hf : f.legacyDatetime = false) (t : Target)
+    (k : InKind) (hk : isMulti k = false) (h : consumes f t k = true) :
+    (t = .mapping ∨ t = .dataclass) ∧ f.noExplicitCast = false := by
+  cases t with
+  | scalar s => rw [C04_scalar_never_consumes_unsized f hf s k hk] at h; cases h
+  | array same => have := C04_array_consumes_only_multi f same k h; rw [hk] at this; cases this
+  | mapping => simp [consumes] at h; exact ⟨Or.inl rfl, h.1⟩
+  | dataclass => simp [consumes] at h; exact ⟨Or.inr rfl, h.1.1⟩
+
+/-- whatever is consumed can be iterated, and a sized input is consumed by a scalar target only through
+`_attempt_from` (non-empty, casts allowed, and a single item under no_data_loss) -/
+theorem C04_scalar_consumes_sized_iff (f : Flags) (hf : f.legacyDatetime = false) (s : Scalar) (n : Nat)
+    (h : consumes f (.scalar s) (.sized n) = true) :
+    f.noExplicitCast = false ∧ n ≠ 0 ∧ (f.noDataLoss = true → n ≤ 1) := by
+  cases s <;> simp [consumes, attemptFrom, hf] at h <;>
+    exact ⟨h.1.1, h.1.2, fun hd => by have := h.2; simp [hd] at this; omega⟩
+
+/-- negation for the code before fixes/C04-datetime-iterates-input: `"GMT" in data` walks through any iterable -/
+theorem C04_legacy_datetime_walks_lazy_witness :
+    consumes { legacyDatetime := true } (.scalar .datetime) .lazy = true
+    ∧ consumes {} (.scalar .datetime) .lazy = false := by decide
+
+end Iteration
 
 /-! ## non-vacuity of the hypotheses used above -/
 
